@@ -123,7 +123,7 @@ def _spec_shard(args):
     outp = os.path.join(workdir, "s%d.out" % i)
     with open(inp, "w") as f:
         f.write("\n".join(spec_case(d) for d in descs) + "\n")
-    subprocess.run([P.MODEL_BIN, inp, outp], check=True, timeout=1200)
+    subprocess.run([P.MODEL_BIN, inp, outp], check=True, timeout=1200, preexec_fn=P._big_stack)
     return [l.split()[1:3] for l in open(outp).read().replace(")", "").splitlines() if l.strip()]
 
 
